@@ -11,11 +11,16 @@ def run(ck):
     else:
         conslib.quorum_design(ck, ["MCQ_c02_r0", "MCQ_c02"], ["MCQ_atbound"], timeout=2400)
     hists = conslib.permsg_design(ck, "c02", "nest", 120 if quick else 3000, maxround=2)
+    # second sentence at design level: common input, synchronous from the first step (PrefixLen = 0), faulty member silent, quiescence-gated
+    # timeouts: no stuck state, nobody leaves round 0 (K = 0), and only the common input is ever decided; the walks are replayed below
+    uni = conslib.sync_design(ck, "uniform", "uni", 60 if quick else 1500, 0, ck.seed, k=0, maxround=2, extra_invs=("UniformDecides",))
     plan = [("uniform", 16), ("random", 24)] if quick else [("uniform", 150), ("random", 300), ("gst", 40)]
     seeds = [ck.seed] if quick else [ck.seed, ck.seed + 1000]
     conslib.run_layers(ck, plan, ["C02_"], seeds=seeds, conformance=not quick)
     if not ck.violations:
         conslib.replay_conformance(ck, ck.binary, "nest", hists[: (60 if quick else 1500)], ["C02_"], conformance=not quick)
+    if not ck.violations:
+        conslib.replay_conformance(ck, ck.binary, "uni", uni[: (30 if quick else 600)], ["C02_"], tag="runi", conformance=not quick, sync=True)
     if not ck.violations:
         conslib.attack_replays(ck, ck.binary, ["C02_"])
     a = ck.cov["antecedents"]
